@@ -5,7 +5,7 @@
 
 typedef unsigned long size_t;
 typedef long ptrdiff_t;
-typedef unsigned int wchar_t;
+typedef int wchar_t;
 typedef struct {
   long long __max_align_ll;
   long double __max_align_ld;
